@@ -52,7 +52,7 @@ claim('C17',
       '1-based min/max index, ascending sort + ref-1 for rank, first-occurrence numbering from 1 with inverse map '
       'in attrs for combine, and the statistic-name table of cell_stats.',
       'Trusted: semantics of np.nditer(order=), list.index, min/max, sorted; reshape row-major.',
-      'AST dataflow/pattern rules specific to local.py (iteration order, comparator table, dominance of NaN guard)',
+      'AST dataflow/pattern rules specific to local.py (iteration order, comparator table, dominance of NaN guard) read on a canonical view (helpers and phases inlined, library call spellings and three iteration idioms normalised)',
       'DESIGN.md §4 C17')
 claim('C18',
       'Static analysis of the trim/crop scan kernels reached from the public functions: decides the premises of '
@@ -263,7 +263,7 @@ claim('C06',
       'Trusted: the paper argument from these provenance premises to soundness; math.atan2 for the table values. The '
       'rules are structural patterns of this implementation (GDAL-style scheme); a different algorithm would be '
       'reported as undecidable/violating rather than verified.',
-      'rules on the abstract interpretation of the line routine and driver (store values/guards, symbolic coupling of running minimum and adopted pair, program-ordered events) + exact bearing-table evaluation',
+      'rules on the abstract interpretation of the line routine and driver (parameter roles derived from use, the pixel / row of a pass as an expression of the loop variable, store values/guards, symbolic coupling of running minimum and adopted pair, program-ordered events) + exact bearing-table evaluation',
       'DESIGN.md §4 C06')
 
 claim('C05',
@@ -285,7 +285,7 @@ claim('C05',
       'maximum gradient after every insert/delete order, hence that the sweep marks exactly the visible cells.',
       'Trusted: math.atan/atan2 for table values. The declined core needs balanced-tree invariants over unbounded '
       'insert/delete histories - no sound static argument in reach.',
-      'symbolic interpretation of helpers and sweep kernel (stores, guards, call records) + exhaustive sign-case evaluation of decision tables; layout/axis-role rules',
+      'symbolic interpretation of helpers and sweep kernel (stores, guards, call records; helper parameter roles read off the values the sweep hands them, phases of a split kernel executed in place) + exhaustive sign-case evaluation of decision tables; layout/axis-role rules',
       'DESIGN.md §4 C05')
 
 claim('C15',
